@@ -12,7 +12,7 @@ import sqlite3
 
 import common
 
-GEN_DEPS = ("gen_idmanager",)
+GEN_DEPS = ("gen_idmanager", "gen_uploadflow")
 ASSUMPTIONS = [
     "upload timestamps handed to one database are strictly increasing (the property quantifies over clock *advances*; equal timestamps cannot be ordered by the table)",
     "'other images since then' = distinct other ids whose latest upload to that terminal is later (what a terminal that replaces an image when its id is re-sent holds)",
@@ -282,6 +282,7 @@ def run(ctx, model):
             ctx.violations.append({"signature": {"class": klass}, "what": msg,
                                    "case": {"kind": "history", "script": h["script"], "thresholds": h["thr"], "query_index": qi}})
             break
+    highlevel(ctx, cov)
     return cov
 
 
@@ -310,3 +311,110 @@ def replay(ctx, model, rec):
             idm.datetime = saved
         return {"violates": bool(before) and not after, "needs_uploading_before_shrinking_resend": before, "after": after}
     return {"violates": False, "note": "history cases are replayed by re-running the check with the same seed"}
+
+
+# ------------------------------------------------------------------------------ high-level wrapper
+def highlevel(ctx, cov):
+    """TupimageTerminal.upload / needs_uploading with the configured thresholds, on a long-lived terminal object whose
+    attached tmux client (= terminal id) changes between calls (fake `tmux` executable).  Oracle: the history — an
+    upload() must transmit unless the terminal currently attached received this image (same description) as its
+    latest transmission of the id and the thresholds were not exceeded since."""
+    work = ctx.work
+    rng = ctx.rng
+    bindir = os.path.join(work, "bin04")
+    os.makedirs(bindir, exist_ok=True)
+    client_file = os.path.join(work, "tmux-client")
+    with open(os.path.join(bindir, "tmux"), "w") as f:
+        f.write(f"#!/bin/sh\nc=$(cat {client_file})\necho \"xterm-kitty||||$c||||77_$0\"\n")
+    os.chmod(os.path.join(bindir, "tmux"), 0o755)
+    scenarios = []
+    for _ in range(ctx.pick(40, 400)):
+        steps = []
+        for _ in range(rng.randrange(3, 10)):
+            k = rng.random()
+            if k < 0.35:
+                steps.append(("client", rng.choice(["101", "202", "303"])))
+            else:
+                steps.append(("upload", rng.randrange(3), rng.random() < 0.15))
+        scenarios.append({"steps": steps, "N": rng.choice([1, 2, 1024]), "B": rng.choice([200, 10**9]), "redetect": rng.random() < 0.85})
+
+    def child():
+        common.scrub_process_env()
+        os.environ["PATH"] = bindir + ":" + os.environ.get("PATH", "")
+        os.environ["HOME"] = work
+        os.environ["XDG_STATE_HOME"] = os.path.join(work, "state")
+        os.environ["XDG_CONFIG_HOME"] = os.path.join(work, "config")
+        import tupimage
+        from PIL import Image
+        imgs = []
+        for i in range(3):
+            p = os.path.join(work, f"c04-hl-{i}.png")
+            Image.new("RGB", (4 + i, 3), (10, 20 * i, 30)).save(p)
+            imgs.append(p)
+        tty_in = open("/dev/tty", "rb", buffering=0)
+        out = []
+        for si, sc in enumerate(scenarios):
+            with open(client_file, "w") as f:
+                f.write("101")
+            db = os.path.join(work, f"c04-hl-{os.getpid()}-{si}.db")
+            stream = common.RecStream()
+            t = tupimage.TupimageTerminal(out_command=stream, out_display=common.RecStream(), in_response=tty_in, id_database=db, config="DEFAULT",
+                                          num_tmux_layers=1, id_space="8bit", id_subspace="20:30", upload_method="direct", redetect_terminal=sc["redetect"],
+                                          reupload_max_uploads_ago=sc["N"], reupload_max_bytes_ago=sc["B"], reupload_max_seconds_ago=3600)
+            log = []
+            client = "101"
+            for st in sc["steps"]:
+                if st[0] == "client":
+                    client = st[1]
+                    with open(client_file, "w") as f:
+                        f.write(client)
+                    log.append(["client", client])
+                else:
+                    n0 = len(stream.writes)
+                    inst = t.upload(imgs[st[1]], force_upload=st[2])
+                    sent = sum(len(w) for w in stream.writes[n0:])
+                    log.append(["upload", st[1], bool(st[2]), inst.id, sent, t._terminal_id, os.path.getsize(imgs[st[1]])])
+            out.append(log)
+            os.remove(db)
+        return out
+
+    r = common.in_pty(child, timeout=600)
+    if "ok" not in r:
+        ctx.corr_breaks.append({"what": "high-level C04 scenarios failed in the pty sandbox", "error": {k: v for k, v in r.items() if k != "tty"}})
+        return
+    for sc, log in zip(scenarios, r["ok"]):
+        # what each terminal (tmux client) received, in order: list of (id, image index, size)
+        received = {}
+        attached_at_construction = "101"
+        current = "101"
+        known = attached_at_construction  # the terminal id the object believes in when redetect is off
+        for ev in log:
+            if ev[0] == "client":
+                current = ev[1]
+                continue
+            _, img, force, id_, sent, tid, size = ev
+            term = current if sc["redetect"] else known
+            hist = received.setdefault(term, [])
+            # latest transmission of this id to the attached terminal, and what came after it
+            idx = max((i for i, h in enumerate(hist) if h[0] == id_), default=None)
+            ok = False
+            if idx is not None and hist[idx][1] == img:
+                later = {}
+                for h in hist[idx + 1:]:
+                    later[h[0]] = h
+                ok = len(later) < sc["N"] and hist[idx][2] + sum(h[2] for h in later.values()) <= sc["B"]
+            transmitted = sent > 0
+            cov.add({"scenario_step": ev[:3], "terminal": term, "N": sc["N"], "B": sc["B"]}, nontrivial=len(received) > 1 or idx is not None, klass="highlevel/" + ("transmit" if transmitted else "skip"))
+            if not transmitted and not ok:
+                ctx.violations.append({"signature": {"class": "no-upload-although-condition-fails", "path": "TupimageTerminal.upload"},
+                                       "what": f"upload() of image {img} (id {id_}) transmitted nothing although the attached terminal {term} does not hold it as the latest upload of that id within the thresholds",
+                                       "case": {"kind": "highlevel", "scenario": sc, "log": log}})
+                break
+            if transmitted and ok and not force:
+                ctx.violations.append({"signature": {"class": "needless-reupload", "path": "TupimageTerminal.upload"},
+                                       "what": f"upload() of image {img} (id {id_}) re-transmitted although terminal {term} holds it within the thresholds",
+                                       "case": {"kind": "highlevel", "scenario": sc, "log": log}})
+                break
+            if transmitted:
+                # a re-sent id replaces the terminal's entry
+                hist.append((id_, img, size))
